@@ -139,11 +139,11 @@ func (p *prober) build(t *rapid.T, endpoint string) *base {
 			total += in.Amount
 		}
 		fee := w.FeeFor(inputs)
-		if total <= fee+w.LN.FeeFor(total)+1 {
+		if total <= fee+w.ReserveFor(total)+1 {
 			return nil
 		}
 		amt := total - fee
-		for amt+w.LN.FeeFor(amt)+fee > total {
+		for amt+w.ReserveFor(amt)+fee > total {
 			amt--
 		}
 		inv := w.Net.ExternalInvoice(amt * 1000)
